@@ -210,6 +210,12 @@ func (c *Ctx) ruleR06a(rule string) {
 							if p, isP := v.(*ssa.Parameter); isP {
 								return isErrorType(p.Type()) || ssax.NamedIs(p.Type(), "parsley", "Pos")
 							}
+							// grammar configuration: a field of the helper's own receiver
+							if u, ok := v.(*ssa.UnOp); ok && u.Op == token.MUL && h.Signature.Recv() != nil {
+								if fa, ok := u.X.(*ssa.FieldAddr); ok && fa.X == ssa.Value(h.Params[0]) {
+									return true
+								}
+							}
 							// a position handed out by the reader or read off an error, as in the parser itself
 							if ssax.NamedIs(v.Type(), "parsley", "Pos") || isErrorType(v.Type()) {
 								switch v.(type) {
